@@ -141,9 +141,12 @@ End Algebra.
 Inductive opclass :=
 | OpHop          (* lambda y: hop(y.reshape(shape)).ravel(), hop built by hop_expr*: the Hermitian effective Hamiltonian *)
 | OpRealScaled   (* effective Hamiltonian divided by a coefficient that is real on every path: still Hermitian *)
+| OpCoefCancelled (* lambda y: f(y) * c with f = the factory function dividing by the SAME name c (non-zero literal on every path):
+                     (H_eff y / c) * c = H_eff y, Hermitian *)
 | OpDivImag      (* effective Hamiltonian divided by a coefficient that is imaginary on some path: anti-Hermitian there *)
 | OpUnknown.
 Inductive dtclass :=
+| DtOverCoef     (* name / c with the coefficient c whose cancellation was verified for the operator *)
 | DtImagConst    (* (+-1j) * name / 2 : the imaginary unit is carried by dt *)
 | DtCoeffTau     (* coeff * tau : the caller's coefficient (-1j or -1) is carried by dt *)
 | DtName         (* a bare variable *)
@@ -157,6 +160,7 @@ Definition site_ok (s : site) : bool :=
   match s_op s with
   | OpHop => true
   | OpRealScaled => true
+  | OpCoefCancelled => match s_dt s with DtOverCoef => true | _ => false end   (* the removed 1/c must reappear in dt *)
   | OpDivImag => false
   | OpUnknown => false
   end.
